@@ -194,7 +194,7 @@ def finish(prop, pd, tier, seed, results, wall, write_baseline=False):
         "undecided": undecided[:50], "errors": errors[:20],
         "bounded_checks": bounded,
         "known_findings_printed": known_printed,
-        "samples": samples or [{"note": "no deductive obligations in this property; see bounded_checks"}],
+        "samples": samples or [dict(check=b["name"], bound=b["bound"], cases=b["samples"]) for b in bounded] or [{"note": "nothing explored"}],
         "evaluations": max(evaluations, n_obl, 1),
         "distinct_nontrivial": max(2, sum(1 for o in obligations if (o.get("backend") or "") not in ("simplifier",)) + sum(b["evaluations"] for b in bounded)),
         "rule": "one obligation per (function, configuration, path, conjunct), de-duplicated by SMT text; non-trivial = needed a solver call (not closed by the simplifier); bounded stand-ins counted separately under bounded_checks",
